@@ -21,6 +21,7 @@ import (
 	"regexp"
 	"strconv"
 	"strings"
+	"syscall"
 
 	"verif/harness/internal/concx"
 	"verif/harness/internal/h"
@@ -184,6 +185,7 @@ func (p *parent) runChild(s scen, args []string) (map[string]interface{}, *curSc
 		"-maxpre", strconv.Itoa(p.maxpre), "-random", strconv.Itoa(p.nrand)}, args...)
 	cmd := exec.Command(self, full...)
 	cmd.Env = childEnv
+	cmd.SysProcAttr = &syscall.SysProcAttr{Pdeathsig: syscall.SIGKILL} // no orphans if the parent is killed (timeouts)
 	var stderr bytes.Buffer
 	cmd.Stderr = &stderr
 	werr := cmd.Run()
